@@ -18,6 +18,7 @@ import SMGo.Proofs.SM4X2
 import SMGo.Proofs.SM4Key
 import SMGo.Proofs.SM4Inverse
 import SMGo.Proofs.ISAValSpec
+import SMGo.Proofs.ISAValExpandSpec
 import SMGo.Proofs.ISAValTests
 namespace SMGo.Props.C05
 open SMGo
@@ -268,9 +269,58 @@ theorem asm_test_expandKey :
     ∧ (Spec.SM4.keySchedule (keyStd.map UInt8.ofNat)).map (·.toNat) = rkStd :=
   ⟨test_expandKey, test_expandKey_standard⟩
 
+open Model.ISAVal in
+/-- **`cryptoBlockAsm` called in place** (`dst == src`, as `Encrypt(b, b)` does): the buffer ends up holding the
+    block function of the specification applied to what it held -/
+theorem asm_cryptoBlockAsm_inplace_eq_spec (g v k rk buf : List Nat)
+    (hg : g.length = 16) (hv : v.length = 32) (hrk : rk.length = 32) (hrkb : ∀ x ∈ rk, x < 2 ^ 32)
+    (hbuf : buf.length = 16) (hsb : ∀ x ∈ buf, x < 256) :
+    runDst Gen.ListAmd64Asm.cryptoBlockAsm 2000 (kernelStateInPlace g v k rk buf)
+      = .ok ((Spec.SM4.crypt (rk.map (BitVec.ofNat 32)) (buf.map UInt8.ofNat)).map (·.toNat)) :=
+  Proofs.ISAVal.kernelX1_inplace_eq_spec g v k rk buf hg hv hrk hrkb hbuf hsb
+
+open Model.ISAVal in
+/-- **the listing of `expandKeyAsm` computes the key schedule of the specification**: for every 16-byte key,
+    whatever the registers (at least two opmask registers exist) and the two 32-word arrays hold at entry, the run
+    succeeds, `enc` receives rk_0 … rk_31 and `dec` receives them in reverse order.  (Symbolic execution as for
+    `cryptoBlockAsm`; the constants CK_i, FK_j are read from the DATA symbols and are those of the specification.) -/
+theorem asm_expandKeyAsm_eq_spec (g v k key enc0 dec0 : List Nat)
+    (hg : g.length = 16) (hv : v.length = 32) (hk : 1 < k.length)
+    (hkey : key.length = 16) (hkb : ∀ x ∈ key, x < 256) (henc : enc0.length = 128) (hdec : dec0.length = 128) :
+    runExpandKey 2000 (expandKeyState g v k key enc0 dec0)
+      = .ok ((Spec.SM4.keySchedule (key.map UInt8.ofNat)).map (·.toNat),
+             (Spec.SM4.keySchedule (key.map UInt8.ofNat)).reverse.map (·.toNat)) :=
+  Proofs.ISAVal.expandKey_eq_spec g v k key enc0 dec0 hg hv hk hkey hkb henc hdec
+
+open Model.ISAVal in
+/-- **C05 for the accelerated amd64 path of the public API, at the level of the listings**: `NewCipher` runs
+    `expandKeyAsm`, `Encrypt` / `Decrypt` run `cryptoBlockAsm` with the `enc` / `dec` array it produced; the results
+    are SM4 encryption and decryption of the specification.  (What is not covered by this theorem: the Go glue
+    around the two routines — length checks, pointer passing — and the instruction semantics themselves, which
+    are compared with the CPU by the harness.) -/
+theorem C05_asm_amd64 (g v k g' v' k' key enc0 dec0 dst0 src : List Nat)
+    (hg : g.length = 16) (hv : v.length = 32) (hk : 1 < k.length) (hg' : g'.length = 16) (hv' : v'.length = 32)
+    (hkey : key.length = 16) (hkb : ∀ x ∈ key, x < 256) (henc : enc0.length = 128) (hdec : dec0.length = 128)
+    (hsrc : src.length = 16) (hsb : ∀ x ∈ src, x < 256) (hdst : dst0.length = 16) :
+    ∃ enc dec, runExpandKey 2000 (expandKeyState g v k key enc0 dec0) = .ok (enc, dec)
+      ∧ runDst Gen.ListAmd64Asm.cryptoBlockAsm 2000 (kernelState g' v' k' enc dst0 src)
+          = .ok ((Spec.SM4.encrypt (key.map UInt8.ofNat) (src.map UInt8.ofNat)).map (·.toNat))
+      ∧ runDst Gen.ListAmd64Asm.cryptoBlockAsm 2000 (kernelState g' v' k' dec dst0 src)
+          = .ok ((Spec.SM4.decrypt (key.map UInt8.ofNat) (src.map UInt8.ofNat)).map (·.toNat)) := by
+  refine ⟨_, _, asm_expandKeyAsm_eq_spec g v k key enc0 dec0 hg hv hk hkey hkb henc hdec, ?_, ?_⟩
+  · have hlen : (Spec.SM4.keySchedule (key.map UInt8.ofNat)).length = 32 := Proofs.SM4.keySchedule_length _
+    rw [asm_cryptoBlockAsm_eq_spec g' v' k' _ dst0 src hg' hv' (by simp [hlen])
+      (by intro x hx; simp only [List.mem_map] at hx; obtain ⟨w, _, rfl⟩ := hx; exact w.isLt) hsrc hsb hdst]
+    simp [Spec.SM4.encrypt, List.map_map, Function.comp_def]
+  · have hlen : (Spec.SM4.keySchedule (key.map UInt8.ofNat)).length = 32 := Proofs.SM4.keySchedule_length _
+    rw [asm_cryptoBlockAsm_eq_spec g' v' k' _ dst0 src hg' hv' (by simp [hlen])
+      (by intro x hx; simp only [List.mem_map] at hx; obtain ⟨w, _, rfl⟩ := hx; exact w.isLt) hsrc hsb hdst]
+    simp [Spec.SM4.decrypt, List.map_map, Function.comp_def]
+
 /- Not proved in general (only tested above and, on every check, against the CPU and the specification by the
-   harness): the listings of cryptoBlockAsmX2/X4/X8/X16 and of expandKeyAsm.  What is missing for them is named
-   in SMGo/Proofs/ISAValSpec.lean (end of file). -/
+   harness): the listings of cryptoBlockAsmX2/X4/X8/X16 (on amd64 they are reached only from tests: Encrypt/Decrypt
+   use cryptoBlockAsm, GCM uses its own fused routine).  What a general proof would need on top of the lemmas
+   that exist is named at the end of SMGo/Proofs/ISAValSpec.lean. -/
 
 end SMGo.Props.C05
 
@@ -299,3 +349,6 @@ end SMGo.Props.C05
 #print axioms SMGo.Props.C05.asm_test_X1_inplace
 #print axioms SMGo.Props.C05.asm_test_X2_X4_X8_X16
 #print axioms SMGo.Props.C05.asm_test_expandKey
+#print axioms SMGo.Props.C05.asm_cryptoBlockAsm_inplace_eq_spec
+#print axioms SMGo.Props.C05.asm_expandKeyAsm_eq_spec
+#print axioms SMGo.Props.C05.C05_asm_amd64
